@@ -94,7 +94,7 @@ def guard_semantics(p, P0, A, k_adv, SZ, fn, m):
     """Decide whether the branch conditions of path p imply 'the item fits' (size <= endp - old cursor), imply the
     opposite, or neither.  Pointers are modelled as 64-bit signed offsets from the old cursor (objects do not wrap the
     address space); everything after ptrtoint / pointer difference is bit-precise.  Quantified over every room
-    r = endp - old cursor with |r| < 2^31 (the cursor may already be beyond the end) and every size (32 bits).
+    r = endp - old cursor with |r| < 2^31 (the cursor may already be beyond the end) and every size below 2^31.
     -> ('fits' | 'nofit' | 'mixed' | None, text, loc)"""
     from ..domains.bdd import BDD, BV
     from ..domains.bvexec import expr_bv, Top
@@ -143,7 +143,9 @@ def guard_semantics(p, P0, A, k_adv, SZ, fn, m):
 
     def atom(x):
         if x[0] == "cast" and x[1] == "ptrtoint":
-            return off_of(x[4])
+            o = off_of(x[4])
+            # (on a 32-bit target the address is a 32-bit integer: the offset model is narrowed with it)
+            return bv.trunc(o, m.ptr_size * 8) if o is not None and m.ptr_size < 8 else o
         if x[0] in ("ld", "p"):
             o = off_of(x)
             if o is not None:
@@ -175,6 +177,7 @@ def guard_semantics(p, P0, A, k_adv, SZ, fn, m):
     # rf_pack_remaining / rf_pack_consumed, is an int)
     lim = bv.const(1 << 31, 64)
     dom = B.AND(bv.slt(R, lim), bv.slt(bv.sub(bv.const(0, 64), lim), R))
+    dom = B.AND(dom, bv.ult(sz64, lim))        # "total requested bytes below 2^31"
     fits = B.NOT(bv.slt(R, sz64))
     pc = dom
     used = []
